@@ -13,7 +13,7 @@ use rosu_map::Beatmap;
 use std::sync::mpsc;
 use std::time::{Duration, Instant};
 
-pub const RULE: &str = "byte strings: uniform noise, grammar-generated .osu text (levels 0-2, hostile numerics), byte/line/field mutations, splices and truncations of the bundled maps, BOM/UTF-16 variants, UTF-16LE files cut right after the low byte of each of their line feeds, every byte string of length <= 2 (thorough: <= 3) over the BOM/line-feed alphabet, files whose string-valued fields (file names, metadata, colour names, sample files, headers) carry multi-byte characters at every offset from their end, maps of 22-71 objects whose start/end times lie within 8 ulps of each other in any file order; each under a watchdog (no return within 15 s = hang) through all nine decoder types (from_bytes) and, for Beatmap, re-encoded; non-trivial = at least one section header recognised and at least 5 lines; distinct = distinct byte strings";
+pub const RULE: &str = "byte strings: uniform noise, grammar-generated .osu text (levels 0-2, hostile numerics), byte/line/field mutations, splices and truncations of the bundled maps, BOM/UTF-16 variants, UTF-16LE files cut right after the low byte of each of their line feeds, every byte string of length <= 2 (thorough: <= 3) over the BOM/line-feed alphabet, files whose string-valued fields (file names, metadata, colour names, sample files, headers) carry multi-byte characters at every offset from their end, maps of 22-71 objects whose start/end times lie within 8 ulps of each other in any file order, every numeric field of every record kind replaced in turn by every hostile literal (limits, limits +- 1, huge, tiny, non-finite, padded, malformed); each under a watchdog (no return within 15 s = hang) through all nine decoder types (from_bytes) and, for Beatmap, re-encoded; non-trivial = at least one section header recognised and at least 5 lines; distinct = distinct byte strings";
 
 fn hex(bytes: &[u8]) -> String {
     let mut s = String::with_capacity(bytes.len() * 2);
@@ -435,6 +435,59 @@ pub fn inputs(tier: &str, seed: u64, mut f: impl FnMut(&[u8], &str)) {
             }
         }
         f(text.as_bytes(), "ulp-cluster");
+    }
+    // 8. every numeric field of every record kind replaced, one at a time, by every hostile
+    //    literal (limits, limits +- 1, huge, tiny, non-finite, padded, malformed)
+    let literals = [
+        "2147483647", "-2147483647", "2147483648", "-2147483648", "2147483646", "-2147483649", "4294967295", "4294967296",
+        "9223372036854775807", "-9223372036854775808", "99999999999999999999", "0", "-0", "+5", " 7 ", "007", "1e3", "1.5", "",
+        "x", "0x10", "1e400", "-1e400", "nan", "NaN", "inf", "-inf", "1e-400", "4.9e-324", "3.4028236e38", "16777217",
+        "131072", "-131072", "131073", "9000", "9001", "8999", "255", "256", "-1", "65536", "1e10", "0.5", "-0.5",
+    ];
+    let templates: [(&str, &str); 12] = [
+        ("[HitObjects]", "256,192,1000,2,0,B|300:200|350:100,1,120,2|0,0:0|0:0,0:0:0:0:"),
+        ("[HitObjects]", "256,192,1000,6,4,P|300:200|350:100,2,90"),
+        ("[HitObjects]", "256,192,1000,1,0,0:0:0:0:"),
+        ("[HitObjects]", "256,192,1000,12,0,2000,0:0:0:0:"),
+        ("[HitObjects]", "64,192,1000,128,0,2000:0:0:0:0:"),
+        ("[TimingPoints]", "1000,500,4,2,1,60,1,0"),
+        ("[TimingPoints]", "2000,-50,4,2,1,60,0,1"),
+        ("[Events]", "2,1000,2000"),
+        ("[Events]", "0,0,\"bg.jpg\",0,0"),
+        ("[Colours]", "Combo1 : 1,2,3"),
+        ("[Editor]", "Bookmarks: 1,2"),
+        ("[Difficulty]", "SliderTickRate:1"),
+    ];
+    for (ti, (sec, line)) in templates.iter().enumerate() {
+        // positions of the maximal digit runs of the template
+        let bytes = line.as_bytes();
+        let mut spans = vec![];
+        let mut i = 0;
+        while i < bytes.len() {
+            if bytes[i].is_ascii_digit() || (bytes[i] == b'-' && i + 1 < bytes.len() && bytes[i + 1].is_ascii_digit()) {
+                let st = i;
+                i += 1;
+                while i < bytes.len() && bytes[i].is_ascii_digit() {
+                    i += 1;
+                }
+                spans.push((st, i));
+            } else {
+                i += 1;
+            }
+        }
+        for (si, &(st, en)) in spans.iter().enumerate() {
+            for (li, lit) in literals.iter().enumerate() {
+                if tier != "thorough" && (ti + si + li) % 2 == 1 && !lit.contains("2147483648") {
+                    continue;
+                }
+                let mutated = format!("{}{}{}", &line[..st], lit, &line[en..]);
+                let text = format!(
+                    "osu file format v14\n\n[General]\nMode:{}\n\n[Difficulty]\nSliderMultiplier:1.4\n\n[TimingPoints]\n0,500,4,2,1,60,1,0\n\n{}\n{}\n{}\n\n[HitObjects]\n10,10,5000,1,0\n",
+                    (ti + li) % 4, sec, mutated, line
+                );
+                f(text.as_bytes(), "field-matrix");
+            }
+        }
     }
 }
 
